@@ -25,6 +25,7 @@ import (
 	"github.com/pkg/errors"
 	"go.uber.org/multierr"
 	"google.golang.org/grpc/codes"
+	"google.golang.org/grpc/metadata"
 	"google.golang.org/grpc/status"
 
 	"github.com/oxia-db/oxia/common/concurrent"
@@ -384,6 +385,15 @@ func (fc *followerController) Replicate(stream proto.OxiaLogReplication_Replicat
 	if fc.status != proto.ServingStatus_FENCED && fc.status != proto.ServingStatus_FOLLOWER {
 		fc.Unlock()
 		return constant.ErrInvalidStatus
+	}
+
+	// A leader of a different term (eg: one that was not yet told it has been superseded) must not be
+	// able to attach to this node and receive its acks
+	if md, ok := metadata.FromIncomingContext(stream.Context()); ok {
+		if streamTerm, err := readTerm(md); err == nil && streamTerm >= 0 && streamTerm != fc.term {
+			fc.Unlock()
+			return constant.ErrInvalidTerm
+		}
 	}
 
 	if fc.closeStreamWg != nil {
